@@ -5,7 +5,7 @@ PID = "C11"
 COQ_FILES = ["Model/Base.v", "Model/BpSpec.v", "Model/BpMachine.v", "Proofs/BpMachineProofs.v", "Gen/Bp.v", "Ties/BpTie.v", "Properties/C11.v"]
 RULES[PID] = ("e2e leg, two families, every history in a forked child with a watchdog. (1) world histories on a fixed debuggee (0 or 3 worker threads, optional "
               "wait-for-flag-file mode): the full grid launched/attached x single/multi-threaded x stop kind (not started or just attached, at a breakpoint "
-              "with a hardware watchpoint armed, after stepi, after exit) x ending (drop, detach + drop), then random fill, then a stress tail (40 quick / 300 thorough attached 3-thread histories ending at a breakpoint or after stepi, run while spinner threads keep all cores busy so that traps raised but not yet reported exist at the moment of release); attached = the harness "
+              "with a hardware watchpoint armed, after stepi, after exit) x ending (drop, detach + drop) plus the worker-focus plan (attached, 3 workers: a breakpoint on `finale` is created while a worker thread is in focus, the workers' own breakpoint is removed, the workers finish and exit, the main thread stops at `finale`, then drop / detach + drop), then random fill, then a stress tail (40 quick / 300 thorough attached 3-thread histories ending at a breakpoint or after stepi, run while spinner threads keep all cores busy so that traps raised but not yet reported exist at the moment of release); attached = the harness "
               "spawns the program itself and uses DebuggerBuilder::build_attached. Afterwards the harness inspects the world itself: /proc/<pid> gone "
               "(state Z = not reaped) for launched programs; for released ones state R/S, no thread in t/T, TracerPid 0 for every task, executable "
               "mapping byte-equal to the ELF file through /proc/<pid>/mem, DR7 enable bits zero in every thread (own PTRACE_SEIZE + PEEKUSER), then the "
